@@ -5,7 +5,7 @@
 //!      {"a":"Legacy","kind":k,"v":"CC1A"}      set_*_password_raw(v)
 //!      {"a":"Set","kind":k,"pw":p,"others":[..]}   set_password / set_workbook_password / set_revisions_password
 //!      {"a":"Save","writer":"std"|"light"}     write_writer / write_writer_light into memory
-//!      {"a":"Load"}                            read_reader(bytes of the last Save, true)
+//!      {"a":"Load","lazy":bool}                read_reader(bytes of the last Save, !lazy) (+ read_sheet(i) if lazy)
 //!   ]}
 //! kinds: "sheet1" / "sheet2" (sheets 0 and 1), "workbook", "revisions".
 //! Every step is performed on the workbook and on a *shadow* workbook that gets a fixed decoy
@@ -138,8 +138,18 @@ fn save(book: &Spreadsheet, writer: &str) -> Result<Vec<u8>, String> {
     }
 }
 
-fn load(bytes: &[u8]) -> Result<Spreadsheet, String> {
-    umya_spreadsheet::reader::xlsx::read_reader(Cursor::new(bytes.to_vec()), true).map_err(|e| format!("{:?}", e))
+/// eager: read_reader(.., true); lazy: read_reader(.., false) followed by read_sheet(i) for the
+/// sheets whose getters are read (the documented contract of lazy reading)
+fn load(bytes: &[u8], lazy: bool) -> Result<Spreadsheet, String> {
+    let mut book = umya_spreadsheet::reader::xlsx::read_reader(Cursor::new(bytes.to_vec()), !lazy)
+        .map_err(|e| format!("{:?}", e))?;
+    if lazy {
+        let n = book.get_sheet_count().min(2);
+        for i in 0..n {
+            book.read_sheet(i);
+        }
+    }
+    Ok(book)
 }
 
 fn hex(b: &[u8]) -> String {
@@ -193,8 +203,9 @@ fn run(case: &Value) -> Vec<Value> {
                 }
                 "Load" => {
                     let (f, g) = last.clone().expect("Load without a previous Save");
-                    book = load(&f)?;
-                    shadow = load(&g)?;
+                    let lazy = st["lazy"].as_bool().unwrap_or(false);
+                    book = load(&f, lazy)?;
+                    shadow = load(&g, lazy)?;
                     Ok(json!({}))
                 }
                 _ => panic!("unknown pwdhash action {}", a),
